@@ -1,4 +1,7 @@
 use crate::{defrag::*, *};
+#[cfg(feature = "verif-hooks")]
+use crate::defrag::verif_map::HashMap;
+#[cfg(not(feature = "verif-hooks"))]
 use std::collections::HashMap;
 use std::vec::Vec;
 
@@ -130,6 +133,9 @@ where
         };
 
         // get the reconstruction buffer
+        #[cfg(feature = "verif-hooks")]
+        use crate::defrag::verif_map::Entry;
+        #[cfg(not(feature = "verif-hooks"))]
         use std::collections::hash_map::Entry;
         match self.active.entry(frag_id) {
             Entry::Occupied(mut entry) => {
@@ -186,6 +192,17 @@ where
                 }
             }
         }
+    }
+
+    /// Verification hook: number of (active streams, pooled data buffers,
+    /// pooled section buffers).
+    #[cfg(feature = "verif-hooks")]
+    pub fn verif_counts(&self) -> (usize, usize, usize) {
+        (
+            self.active.len(),
+            self.finished_data_bufs.len(),
+            self.finished_section_bufs.len(),
+        )
     }
 
     /// Returns a buffer to the pool so it can be re-used.
